@@ -16,8 +16,8 @@ ID = 'C20'
 CASE_TYPE = 'C20.case'
 EXTRA_IMPORTS = 'From PJ Require Import Model.Msg Model.Mocker.\n'
 RULE = ('operation / call histories of length 1..4 (quick: all of length <= 2 over a reduced alphabet + 2500 sampled to length 6) / '
-        '(thorough: all of length <= 3 + 40000 sampled to length 7) + 400 / 4000 rotation scenarios (k patches on one pair, calls, a replace at each index, more calls) over 2 endpoints x 2 methods x patches {result, error, callback} x '
-        'once on / off x patch ids x replace at index 0..2 x remove (method / whole endpoint) x reset x passthrough on / off x calls with '
+        '(thorough: all of length <= 3 + 40000 sampled to length 7) + 400 / 4000 rotation scenarios (k patches on one pair, calls, a replace at each index, more calls) over 2 endpoints x 2 methods x patches {result, error, callback, callback that raises} x '
+        'once on / off x patch ids x replace at index -3..2 (Python list indices) x remove (method / whole endpoint) x reset x passthrough on / off x calls with '
         'positional / named / absent params and ids {1, 0, "", "x", none} x single / batch (incl. all-notification and mixed), for the '
         'sync and the async transport. distinct = distinct (history, passthrough, kind); non-trivial = at least one reply was produced')
 EXHAUSTIVE = {'quick': False, 'thorough': False}
@@ -26,7 +26,8 @@ ASSUMPTIONS = ['batch documents carry pairwise distinct ids (a batch with duplic
 
 EPS = ['http://a', 'http://b']
 METHODS = ['m', 'n']
-PATCHES = [('result', 'r1'), ('result', None), ('result', [0]), ('error', (7, 'e7', None)), ('error', (-32000, '', 'UNSET')), ('callback', 'c1'), ('callback', 0)]
+PATCHES = [('result', 'r1'), ('result', None), ('result', [0]), ('error', (7, 'e7', None)), ('error', (-32000, '', 'UNSET')), ('callback', 'c1'), ('callback', 0),
+           ('raise', 'boom')]       # a callback that raises
 PARAMS = [None, [1], {'k': 2}, [[], None]]
 IDS = [1, 0, '', 'x', None]
 
@@ -47,7 +48,7 @@ def rand_op(rnd):
     if k == 'add':
         return ['add', ep, rnd.choice(METHODS), rand_patch(rnd)]
     if k == 'replace':
-        return ['replace', ep, rnd.choice(METHODS), rnd.choice([0, 0, 1, 2]), rand_patch(rnd)]
+        return ['replace', ep, rnd.choice(METHODS), rnd.choice([0, 0, 1, 2, -1, -2, -3]), rand_patch(rnd)]
     if k == 'remove':
         return ['remove', ep, rnd.choice(METHODS)]
     if k == 'remove_ep':
@@ -104,7 +105,7 @@ def generate(seed, tier):
         ops += calls(rnd.choice([0, 1, 2]))
         r = rnd.random()
         if r < 0.7:
-            ops.append(['replace', ep, m, rnd.randrange(k), rand_patch(rnd)])
+            ops.append(['replace', ep, m, rnd.randrange(-k - 1, k), rand_patch(rnd)])
         elif r < 0.85:
             ops.append(['add', ep, m, rand_patch(rnd)])
         ops += calls(rnd.choice([2, 3, 4]))
@@ -113,6 +114,16 @@ def generate(seed, tier):
         n = rnd.randint(2, 6 if tier == 'quick' else 7)
         cases.append({'ops': [rand_op(rnd) for _ in range(n)], 'passthrough': rnd.random() < 0.4, 'async': rnd.random() < 0.5})
     return cases
+
+
+class CallbackBoom(Exception):
+    pass
+
+
+def mk_raiser(tag):
+    def cb(*a, **kw):
+        raise CallbackBoom(tag)
+    return cb
 
 
 def mk_callback(tag):
@@ -130,6 +141,8 @@ def patch_kwargs(p):
     elif p['kind'] == 'error':
         code, msg, data = p['val']
         kw['error'] = pjrpc.exc.JsonRpcError(code=code, message=msg, data=pjrpc.common.UNSET if data == 'UNSET' else data)
+    elif p['kind'] == 'raise':
+        kw['callback'] = mk_raiser(p['val'])
     else:
         kw['callback'] = mk_callback(p['val'])
     return kw
@@ -180,6 +193,8 @@ def observe(case):
                 outs.append(('refused',))
             except pjrpc.exceptions.IdentityError:
                 outs.append(('identity',))
+            except CallbackBoom:
+                outs.append(('raised',))
         calls = []
         for ep, table in mocker.calls.items():
             ms = []
@@ -198,6 +213,8 @@ def cpatch(p):
         code, msg, data = p['val']
         k = ('(PError {| e_code := %s; e_msg := %s; e_data := %s; e_class := "JsonRpcError" |})'
              % (cZ(code), cstr(msg), 'None' if data == 'UNSET' else '(Some %s)' % cjson(data)))
+    elif p['kind'] == 'raise':
+        k = 'PRaise'
     else:
         k = '(PCallback %s)' % cjson(p['val'])
     return '{| p_kind := %s; p_once := %s; p_id := %s |}' % (k, cbool(p['once']), cid(p['id']))
@@ -212,7 +229,7 @@ def cop(op):
     if op[0] == 'add':
         return '(MAdd %s %s %s)' % (cstr(op[1]), cstr(op[2]), cpatch(op[3]))
     if op[0] == 'replace':
-        return '(MReplace %s %s %d%%nat %s)' % (cstr(op[1]), cstr(op[2]), op[3], cpatch(op[4]))
+        return '(MReplace %s %s %s %s)' % (cstr(op[1]), cstr(op[2]), cZ(op[3]), cpatch(op[4]))
     if op[0] == 'remove':
         return '(MRemove %s %s)' % (cstr(op[1]), copt(op[2], cstr))
     if op[0] == 'reset':
@@ -224,7 +241,7 @@ def cop(op):
 
 def cout(o):
     return {'done': 'MDone', 'key': 'MKeyError', 'index': 'MIndexError', 'refused': 'MRefused', 'pass': 'MPassthrough',
-            'identity': 'MIdentity'}.get(o[0]) or '(MReply %s)' % cjson(o[1])
+            'identity': 'MIdentity', 'raised': 'MRaised'}.get(o[0]) or '(MReply %s)' % cjson(o[1])
 
 
 def encode(case, obs):
